@@ -219,6 +219,13 @@ def eval_case(case):
         if not isinstance(T, np.ndarray) or T.shape != (len(Xl), nsens):
             fail("transform-shape", f"transform shape {getattr(T, 'shape', None)} for {len(Xl)} rows x {nsens} sensors")
             continue
+        if full and not case.get("one_d"):
+            try:
+                TL = est.transform([list(map(float, r)) for r in Xl])  # nested-list input is accepted like an array
+                if not np.array_equal(np.asarray(TL), T):
+                    fail("list-input-differs", f"transform(list of lists) differs from transform(ndarray) on {Xl}")
+            except Exception as e:
+                fail(f"list-input-raises:{type(e).__name__}", f"transform(list of lists) raised {e!r}"[:200])
         if not np.array_equal(T, T2):
             fail("not-repeatable", f"two transform calls differ on {Xl}")
         if np.any(T < 0):
